@@ -127,18 +127,50 @@ def check(ctx: Ctx) -> None:
     if not qloops:
         ctx.unknown('C16.R4', ex, 'the loop over the merchant names given on the command line was not found')
     q = qloops[0].target.id
+
+    def origins(e, at, depth=0):
+        """where the merchant name handed to the printer was chosen: [(statement, expression)], following loop variables, locals and one-element lists"""
+        if depth > 4:
+            return [(at, e)]
+        if isinstance(e, ast.Name) and e.id != q:
+            for a in ancestors(at):
+                if isinstance(a, ast.For) and isinstance(a.target, ast.Name) and a.target.id == e.id and a is not qloops[0]:
+                    return origins(a.iter, a, depth + 1)
+            out = []
+            if efl.cfg.has(at):
+                for d in efl.cfg.defs_reaching(efl.stmt_of(at), e.id):
+                    st = efl.cfg.stmt.get(d) if d != 'param' else None
+                    if not isinstance(st, ast.Assign) or len(st.targets) != 1:
+                        return [(at, e)]
+                    t, v = st.targets[0], st.value
+                    if isinstance(t, ast.Tuple) and isinstance(v, ast.Tuple) and len(t.elts) == len(v.elts):
+                        hit = [v.elts[i] for i, x in enumerate(t.elts) if isinstance(x, ast.Name) and x.id == e.id]
+                        if len(hit) != 1:
+                            return [(at, e)]
+                        v = hit[0]
+                    elif not (isinstance(t, ast.Name) and t.id == e.id):
+                        return [(at, e)]
+                    out += origins(v, st, depth + 1)
+            return out or [(at, e)]
+        if isinstance(e, (ast.List, ast.Tuple)) and len(e.elts) == 1:
+            return origins(e.elts[0], at, depth + 1)
+        return [(at, e)]
     for c in pm:
         if not any(a is qloops[0] for a in ancestors(c)):
             continue
-        g = efl.cfg.guard_literals(efl.stmt_of(c))
-        exact_hit = (f'{q} in all_merchants', True) in g
-        exact_miss = (f'{q} in all_merchants', False) in g
-        ops = {o for _l, os_ in efl.leaf_paths(c.args[0], c) for o in os_}
-        folded = bool(ops & {'call:lower', 'call:upper', 'call:casefold'}) or not (isinstance(c.args[0], ast.Name) and c.args[0].id == q)
-        ok = (exact_hit and isinstance(c.args[0], ast.Name) and c.args[0].id == q) or exact_miss or not folded
-        ctx.check(ok, 'C16.R4', ex, f'explain-exact-name-first:{src(c.args[0])[:30]}', 'a merchant found by a looser match is shown only when no merchant has the name as typed',
-                  f'_print_merchant_explanation({src(c.args[0])}, …) is reached without `{q} in all_merchants` having been tried and failed: when two merchants differ in letter case only, '
-                  f'`tally explain` shows the classification of the other one, not the one `tally up` reported under that name', c)
+        bad = None
+        for st, v in origins(c.args[0], c):
+            g = efl.cfg.guard_literals(efl.stmt_of(st)) | efl.cfg.guard_literals(efl.stmt_of(c))
+            exact_hit = (f'{q} in all_merchants', True) in g
+            exact_miss = (f'{q} in all_merchants', False) in g
+            is_q = isinstance(v, ast.Name) and v.id == q
+            ops = {o for _l, os_ in efl.leaf_paths(v, st) for o in os_}
+            folded = bool(ops & {'call:lower', 'call:upper', 'call:casefold'}) or not is_q
+            if not ((exact_hit and is_q) or exact_miss or not folded):
+                bad = v
+        ctx.check(bad is None, 'C16.R4', ex, f'explain-exact-name-first:{src(c.args[0])[:30]}', 'a merchant found by a looser match is shown only when no merchant has the name as typed',
+                  f'_print_merchant_explanation({src(c.args[0])}, …) can show {src(bad) if bad is not None else ""!r}, chosen without `{q} in all_merchants` having been tried and failed: when two '
+                  f'merchants differ in letter case only, `tally explain` shows the classification of the other one, not the one `tally up` reported under that name', c)
     fs = {k: proj.func(v) for k, v in COMMANDS.items()}
     feats = {k: _features(ctx, f) for k, f in fs.items()}
     ref = feats['up']
